@@ -608,3 +608,187 @@ theorem parseItems_fragment (f : FragmentJ) (hw : WFFrag f) :
     rw [printPairs_ns] at h hl
     simp only [printFragmentJ, itemsOf]
     exact h _ (by simp only [List.length_append]; omega)
+
+/-! ### namespaces and fragments: conversion to the JSON form, `normalise` -/
+
+/-- what a context becomes: a record keeps its shape (leaves entity-or-common), a name of any kind (primitive, extension, entity,
+common, entity-or-common) is re-read as a MUST-BE-COMMON reference (to_json_schema.rs `convert_context_decl`) -/
+def normCtx : TyJson → TyJson
+  | .record as => .record (eocFormAttrs as)
+  | .set e => .set e
+  | .bool => .commonRef (cedarName "Bool")
+  | .long => .commonRef (cedarName "Long")
+  | .string => .commonRef (cedarName "String")
+  | .ext n => .commonRef (cedarName n)
+  | .entity n => .commonRef n
+  | .entityOrCommon n => .commonRef n
+  | .commonRef n => .commonRef n
+
+/-- an `appliesTo` with an empty principal or resource list — or none at all — comes back as the EMPTY `ApplySpec`
+(fmt.rs prints nothing: the other list and the context are lost) -/
+def normApply : Option ApplySpecJ → ApplySpecJ
+  | some ⟨p :: ps, r :: rs, ctx⟩ => ⟨p :: ps, r :: rs, normCtx ctx⟩
+  | _ => ⟨[], [], .record .nil⟩
+
+def normAction (a : ActionJ) : ActionJ := ⟨normParents a.memberOf, some (normApply a.appliesTo)⟩
+
+def normEnt : EntityKindJ → EntityKindJ
+  | .standard e => .standard { memberOf := e.memberOf, shape := eocFormAttrs e.shape, tags := e.tags.map eocForm }
+  | .enum cs => .enum cs
+
+def normNs (d : NamespaceJ) : NamespaceJ :=
+  ⟨d.commons.map fun x => (x.1, eocForm x.2), d.entities.map fun x => (x.1, normEnt x.2), d.actions.map fun x => (x.1, normAction x.2)⟩
+
+/-- an empty-namespace entry without declarations prints nothing and is absent afterwards -/
+def normFragment (f : FragmentJ) : FragmentJ :=
+  ⟨match f.empty with
+    | some d => if nsCount d = 0 then none else some (normNs d)
+    | none => none,
+   f.named.map fun x => (x.1, normNs x.2)⟩
+
+def SortedEnt : EntityKindJ → Prop
+  | .standard e => SortedT (.record e.shape) ∧ (∀ t, e.tags = some t → SortedT t)
+  | .enum _ => True
+
+/-- record attributes are in `BTreeMap` order (true of every deserialised JSON schema) -/
+def SortedNs (d : NamespaceJ) : Prop :=
+  (∀ x ∈ d.commons, SortedT x.2) ∧ (∀ x ∈ d.entities, SortedEnt x.2) ∧
+  (∀ x ∈ d.actions, ∀ s, x.2.appliesTo = some s → SortedT s.context)
+
+def ctxItemJson : AppItem → TyJson
+  | .ctxPath q => .commonRef q
+  | .ctxRec as => .record (collectJ .nil as)
+  | .pr _ _ => .record .nil
+
+theorem ctx_norm (t : TyJson) (hs : SortedT t) (hok : CtxOK t) : ctxItemJson (ctxItemOf t) = normCtx t := by
+  cases t with
+  | set e => exact absurd rfl (hok e)
+  | record as =>
+    have := normalize_eq_eocForm (.record as) hs
+    simp only [toCedar, toJson, eocForm, TyJson.record.injEq] at this
+    simp [ctxItemOf, toCedar, ctxItemOfC, ctxItemJson, normCtx, this]
+  | _ => simp [ctxItemOf, toCedar, ctxItemOfC, ctxItemJson, normCtx]
+
+theorem convertApp_three (ps rs : List QName) (p r : QName) (it : AppItem) (hit : ∀ b ts, it ≠ .pr b ts) :
+    convertApp [.pr true (p :: ps), .pr false (r :: rs), it] ⟨none, none, none⟩ = some ⟨p :: ps, r :: rs, ctxItemJson it⟩ := by
+  cases it with
+  | pr b ts => exact absurd rfl (hit b ts)
+  | ctxPath q => simp [convertApp, ctxItemJson]
+  | ctxRec as => simp [convertApp, ctxItemJson]
+
+theorem ctxItemOf_not_pr (t : TyJson) : ∀ b ts, ctxItemOf t ≠ .pr b ts := by
+  intro b ts
+  simp only [ctxItemOf]
+  cases toCedar t <;> simp [ctxItemOfC]
+
+theorem toJsonActions_toDecl (name : String) (a : ActionJ)
+    (hs : ∀ s, a.appliesTo = some s → SortedT s.context ∧ CtxOK s.context) :
+    (a.toDecl name).toJsonActions = some [(name, normAction a)] := by
+  obtain ⟨m, ap⟩ := a
+  match ap, hs with
+  | none, _ => simp [ActionJ.toDecl, ActionDeclC.toJsonActions, appItemsOf, normAction, normApply]
+  | some ⟨[], _, _⟩, _ => simp [ActionJ.toDecl, ActionDeclC.toJsonActions, appItemsOf, normAction, normApply]
+  | some ⟨_ :: _, [], _⟩, _ => simp [ActionJ.toDecl, ActionDeclC.toJsonActions, appItemsOf, normAction, normApply]
+  | some ⟨p :: ps, r :: rs, ctx⟩, hs =>
+    obtain ⟨h1, h2⟩ := hs _ rfl
+    simp only [ActionJ.toDecl, ActionDeclC.toJsonActions, appItemsOf, convertApp_three ps rs p r _ (ctxItemOf_not_pr ctx),
+      ctx_norm ctx h1 h2, normAction, normApply, List.map_cons, List.map_nil]
+
+theorem toJsonKinds_entDeclOf (name : String) (k : EntityKindJ) (hs : SortedEnt k) :
+    (entDeclOf name k).toJsonKinds = [(name, normEnt k)] := by
+  cases k with
+  | enum cs => simp [entDeclOf, EntDeclC.toJsonKinds, normEnt]
+  | standard e =>
+    obtain ⟨hss, hst⟩ := hs
+    have hshape : collectJ .nil (toCedarAttrs e.shape) = eocFormAttrs e.shape := by
+      have := normalize_eq_eocForm (.record e.shape) hss
+      simpa [toCedar, toJson, eocForm] using this
+    have htags : (e.tags.map toCedar).map toJson = e.tags.map eocForm := by
+      cases ht : e.tags with
+      | none => rfl
+      | some t => simp [normalize_eq_eocForm t (hst t ht)]
+    simp [entDeclOf, EntDeclC.toJsonKinds, normEnt, EntityDecl.toJsonTypes, EntityTypeJ.toDecl, hshape, htags]
+
+theorem convertDecls_commons : ∀ (l : List (String × TyJson)) (ds : List DeclC) (ns : NamespaceJ),
+    (∀ x ∈ l, SortedT x.2) → convertDecls ds = some ns →
+    convertDecls ((pairsOfCommons l).map (·.2) ++ ds) = some { ns with commons := l.map (fun x => (x.1, eocForm x.2)) ++ ns.commons }
+  | [], ds, ns, _, h => by simpa [pairsOfCommons] using h
+  | (n, t) :: l, ds, ns, hs, h => by
+    have ih := convertDecls_commons l ds ns (fun x hx => hs x (List.mem_cons_of_mem _ hx)) h
+    simp only [pairsOfCommons, List.map_cons, List.map_map, List.cons_append] at ih ⊢
+    simp only [convertDecls, ih, normalize_eq_eocForm t (hs (n, t) (by simp))]
+
+theorem convertDecls_entities : ∀ (l : List (String × EntityKindJ)) (ds : List DeclC) (ns : NamespaceJ),
+    (∀ x ∈ l, SortedEnt x.2) → convertDecls ds = some ns →
+    convertDecls ((pairsOfEntities l).map (·.2) ++ ds) = some { ns with entities := l.map (fun x => (x.1, normEnt x.2)) ++ ns.entities }
+  | [], ds, ns, _, h => by simpa [pairsOfEntities] using h
+  | (n, k) :: l, ds, ns, hs, h => by
+    have ih := convertDecls_entities l ds ns (fun x hx => hs x (List.mem_cons_of_mem _ hx)) h
+    simp only [pairsOfEntities, List.map_cons, List.map_map, List.cons_append] at ih ⊢
+    simp only [convertDecls, ih, toJsonKinds_entDeclOf n k (hs (n, k) (by simp))]
+    simp
+
+theorem convertDecls_actions : ∀ (l : List (String × ActionJ)) (ds : List DeclC) (ns : NamespaceJ),
+    (∀ x ∈ l, ∀ s, x.2.appliesTo = some s → SortedT s.context ∧ CtxOK s.context) → convertDecls ds = some ns →
+    convertDecls ((pairsOfActions l).map (·.2) ++ ds) = some { ns with actions := l.map (fun x => (x.1, normAction x.2)) ++ ns.actions }
+  | [], ds, ns, _, h => by simpa [pairsOfActions] using h
+  | (n, a) :: l, ds, ns, hs, h => by
+    have ih := convertDecls_actions l ds ns (fun x hx => hs x (List.mem_cons_of_mem _ hx)) h
+    simp only [pairsOfActions, List.map_cons, List.map_map, List.cons_append] at ih ⊢
+    simp only [convertDecls, ih, toJsonActions_toDecl n a (hs (n, a) (by simp))]
+    simp
+
+theorem convertDecls_ns (d : NamespaceJ) (hw : WFNs d) (hs : SortedNs d) : convertDecls (declsOfNs d) = some (normNs d) := by
+  obtain ⟨cs, es, as⟩ := d
+  obtain ⟨hs1, hs2, hs3⟩ := hs
+  have h3 := convertDecls_actions as [] ⟨[], [], []⟩
+    (fun x hx s hsx => ⟨hs3 x hx s hsx, (hw.2.2 x hx).2 s hsx |>.2.2.2⟩) (by simp [convertDecls])
+  have h2 := convertDecls_entities es _ _ hs2 h3
+  have h1 := convertDecls_commons cs _ _ hs1 h2
+  simp only [declsOfNs, pairsOfNs, List.map_append, List.append_nil] at h1 ⊢
+  rw [h1]
+  simp [normNs]
+
+theorem convertItems_named : ∀ (l : List (QName × NamespaceJ)), WFNamed l → (∀ x ∈ l, SortedNs x.2) →
+    convertItems (l.map fun x => .ns x.1 (declsOfNs x.2)) = some ([], l.map fun x => (x.1, normNs x.2))
+  | [], _, _ => by simp [convertItems]
+  | (q, d) :: l, hw, hs => by
+    have ih := convertItems_named l (fun x hx => hw x (List.mem_cons_of_mem _ hx)) (fun x hx => hs x (List.mem_cons_of_mem _ hx))
+    simp only [List.map_cons, convertItems, ih, convertDecls_ns d (hw (q, d) (by simp)).2.2 (hs (q, d) (by simp))]
+
+theorem convertItems_decls : ∀ (L : List DeclC) (rest : List ItemC) (u : List DeclC) (n : List (QName × NamespaceJ)),
+    convertItems rest = some (u, n) → convertItems (L.map .decl ++ rest) = some (L ++ u, n)
+  | [], _, _, _, h => by simpa using h
+  | d :: L, rest, u, n, h => by
+    have ih := convertItems_decls L rest u n h
+    simp only [List.map_cons, List.cons_append, convertItems, ih]
+
+def SortedFrag (f : FragmentJ) : Prop := (∀ d, f.empty = some d → SortedNs d) ∧ (∀ x ∈ f.named, SortedNs x.2)
+
+theorem toJsonFragment_itemsOf (f : FragmentJ) (hw : WFFrag f) (hs : SortedFrag f) :
+    toJsonFragment (itemsOf f) = some (normFragment f) := by
+  obtain ⟨e, named⟩ := f
+  obtain ⟨hwe, hwn⟩ := hw
+  obtain ⟨hse, hsn⟩ := hs
+  simp only at hwe hwn hse hsn
+  have hn := convertItems_named named hwn hsn
+  cases e with
+  | none => simp [itemsOf, toJsonFragment, hn, normFragment]
+  | some d =>
+    have hc := convertDecls_ns d (hwe d rfl) (hse d rfl)
+    have hd := convertItems_decls (declsOfNs d) _ _ _ hn
+    have hcount : (declsOfNs d).length = nsCount d := by simp [declsOfNs, pairsOfNs_length]
+    simp only [itemsOf, normFragment]
+    have hmap : (pairsOfNs d).map (fun x => ItemC.decl x.2) = (declsOfNs d).map .decl := by simp [declsOfNs]
+    rw [hmap]
+    simp only [toJsonFragment, hd, List.append_nil]
+    cases hL : declsOfNs d with
+    | nil =>
+      rw [hL] at hcount
+      simp at hcount
+      simp [← hcount]
+    | cons x xs =>
+      rw [hL] at hcount hc
+      simp only [List.length_cons] at hcount
+      have : nsCount d ≠ 0 := by omega
+      simp [hc, this]
